@@ -12,6 +12,7 @@ from . import common as C
 ENGINES = {
     "C01": ("eng_wire", "run"),
     "C02": ("eng_wire", "run"),
+    "C03": ("eng_asm", "run"),
     "C04": ("eng_machine", "run"),
     "C15": ("eng_msg", "run"),
     "C16": ("eng_range", "run"),
